@@ -20,25 +20,25 @@ type Profile struct {
 
 var Profiles = map[string]Profile{
 	"uniform": {Name: "uniform", Tick: 1, Step: 1, Ready: 1, Deliver: 1, Redeliver: 1, Drop: 1, Propose: 1, Conf: 1, Apply: 1,
-		Crash: 1, CrashMid: 1, Restart: 1, Compact: 1, Transfer: 1, SnapRep: 1, Unreach: 1, ReadIndex: 1, Partition: 1, Heal: 1,
+		Crash: 0.3, CrashMid: 0.5, Restart: 1, Compact: 1, Transfer: 1, SnapRep: 1, Unreach: 1, ReadIndex: 0.3, Partition: 1, Heal: 1,
 		PNoMore: 0.1, PBusy: 0.1, PRndZero: 0.3, PAll: 0.5, MaxConf: 8},
-	"steady": {Name: "steady", Tick: 3, Step: 8, Ready: 12, Deliver: 12, Redeliver: 0.5, Drop: 0.3, Propose: 2, Conf: 0.15, Apply: 4,
-		Crash: 0.05, CrashMid: 0.05, Restart: 1, Compact: 0.3, Transfer: 0.05, SnapRep: 1, Unreach: 0.05, ReadIndex: 0.1, Partition: 0.05, Heal: 0.3,
+	"steady": {Name: "steady", Tick: 2, Step: 8, Ready: 12, Deliver: 12, Redeliver: 0.5, Drop: 0.15, Propose: 2, Conf: 0.15, Apply: 4,
+		Crash: 0.02, CrashMid: 0.03, Restart: 1, Compact: 0.3, Transfer: 0.05, SnapRep: 1, Unreach: 0.05, ReadIndex: 0.03, Partition: 0.05, Heal: 0.3,
 		PNoMore: 0.03, PBusy: 0.02, PRndZero: 0.2, PAll: 0.85, MaxConf: 4},
 	"elect": {Name: "elect", Tick: 8, Step: 8, Ready: 10, Deliver: 8, Redeliver: 2, Drop: 1, Propose: 1, Conf: 0.1, Apply: 3,
-		Crash: 0.2, CrashMid: 0.3, Restart: 1.5, Compact: 0.1, Transfer: 0.3, SnapRep: 0.5, Unreach: 0.1, ReadIndex: 0.05, Partition: 0.4, Heal: 0.6,
+		Crash: 0.08, CrashMid: 0.12, Restart: 1.5, Compact: 0.1, Transfer: 0.3, SnapRep: 0.5, Unreach: 0.1, ReadIndex: 0.03, Partition: 0.4, Heal: 0.6,
 		PNoMore: 0.02, PBusy: 0.02, PRndZero: 0.7, PAll: 0.7, MaxConf: 3},
 	"crashy": {Name: "crashy", Tick: 4, Step: 8, Ready: 10, Deliver: 10, Redeliver: 1.5, Drop: 0.5, Propose: 2, Conf: 0.15, Apply: 3,
-		Crash: 0.5, CrashMid: 1.2, Restart: 2.5, Compact: 0.4, Transfer: 0.1, SnapRep: 1, Unreach: 0.1, ReadIndex: 0.05, Partition: 0.1, Heal: 0.4,
+		Crash: 0.15, CrashMid: 0.45, Restart: 2.5, Compact: 0.4, Transfer: 0.1, SnapRep: 1, Unreach: 0.1, ReadIndex: 0.03, Partition: 0.1, Heal: 0.4,
 		PNoMore: 0.05, PBusy: 0.03, PRndZero: 0.3, PAll: 0.4, MaxConf: 4},
-	"conf": {Name: "conf", Tick: 3, Step: 8, Ready: 12, Deliver: 12, Redeliver: 1, Drop: 0.3, Propose: 1.5, Conf: 1.5, Apply: 4,
-		Crash: 0.15, CrashMid: 0.2, Restart: 1.5, Compact: 0.4, Transfer: 0.15, SnapRep: 1, Unreach: 0.05, ReadIndex: 0.05, Partition: 0.1, Heal: 0.4,
+	"conf": {Name: "conf", Tick: 2, Step: 8, Ready: 12, Deliver: 12, Redeliver: 1, Drop: 0.3, Propose: 1.5, Conf: 1.5, Apply: 4,
+		Crash: 0.05, CrashMid: 0.08, Restart: 1.5, Compact: 0.4, Transfer: 0.15, SnapRep: 1, Unreach: 0.05, ReadIndex: 0.03, Partition: 0.1, Heal: 0.4,
 		PNoMore: 0.03, PBusy: 0.02, PRndZero: 0.2, PAll: 0.75, MaxConf: 12},
-	"snap": {Name: "snap", Tick: 3, Step: 8, Ready: 12, Deliver: 12, Redeliver: 1, Drop: 0.5, Propose: 3, Conf: 0.2, Apply: 5,
-		Crash: 0.15, CrashMid: 0.2, Restart: 1.5, Compact: 1.5, Transfer: 0.1, SnapRep: 2, Unreach: 0.2, ReadIndex: 0.05, Partition: 0.3, Heal: 0.25,
+	"snap": {Name: "snap", Tick: 2, Step: 8, Ready: 12, Deliver: 12, Redeliver: 1, Drop: 0.3, Propose: 3, Conf: 0.2, Apply: 5,
+		Crash: 0.05, CrashMid: 0.08, Restart: 1.5, Compact: 1.5, Transfer: 0.1, SnapRep: 2, Unreach: 0.2, ReadIndex: 0.03, Partition: 0.3, Heal: 0.25,
 		PNoMore: 0.05, PBusy: 0.05, PRndZero: 0.2, PAll: 0.75, MaxConf: 4},
 	"stale": {Name: "stale", Tick: 5, Step: 8, Ready: 10, Deliver: 8, Redeliver: 4, Drop: 0.2, Propose: 2, Conf: 0.1, Apply: 3,
-		Crash: 0.2, CrashMid: 0.2, Restart: 1.5, Compact: 0.3, Transfer: 0.4, SnapRep: 1, Unreach: 0.1, ReadIndex: 0.05, Partition: 0.6, Heal: 0.4,
+		Crash: 0.06, CrashMid: 0.08, Restart: 1.5, Compact: 0.3, Transfer: 0.4, SnapRep: 1, Unreach: 0.1, ReadIndex: 0.03, Partition: 0.6, Heal: 0.4,
 		PNoMore: 0.03, PBusy: 0.02, PRndZero: 0.4, PAll: 0.7, MaxConf: 3},
 }
 
@@ -122,7 +122,7 @@ func (g *Gen) next() (Event, bool) {
 		if v.QueuedTicks < 60 {
 			w := p.Tick / na
 			if !haveLeader {
-				w *= 4
+				w *= 3
 			}
 			add(w, Event{K: "tick", N: id})
 		}
@@ -184,9 +184,9 @@ func (g *Gen) next() (Event, bool) {
 			add(p.Redeliver, Event{K: "deliver", N: m.To, M: k})
 		}
 		add(p.Drop, Event{K: "drop", M: ids[g.R.Intn(len(ids))]})
-		if len(ids) > 120 {
-			// garbage-collect: the oldest message is lost
-			add(p.Deliver*3, Event{K: "drop", M: ids[0]})
+		if len(ids) > 160 {
+			// garbage-collect: the oldest messages are lost
+			add(p.Deliver*3, Event{K: "gc", M: ids[len(ids)-100]})
 		}
 	}
 	// client / admin
@@ -355,6 +355,9 @@ func RandomOptions(r *rand.Rand, storage string) Options {
 	}
 	o.ElectionTick = []int{2, 3, 3, 5, 10}[r.Intn(5)]
 	o.HeartbeatTick = 1
+	if o.ElectionTick >= 5 && r.Intn(2) == 0 {
+		o.HeartbeatTick = 2
+	}
 	o.MaxInflight = []int{1, 2, 4, 16}[r.Intn(4)]
 	return o
 }
